@@ -141,6 +141,9 @@ def gen_ip(rng, want=None):
         hl = max(20, ihl * 4) if ihl >= 5 else 20
         opts = rng.bytes(hl - 20)
         tl = vary(rng, hl + len(inner), hl)
+        if proto == 51 and rng.chance(1, 6):
+            # total length ends inside (or exactly behind) the authentication header
+            tl = hl + rng.below(len(inner) - len(tr) + 3)
         ver = 4 if rng.chance(19, 20) else rng.below(16)
         flags_fo = rng.choice([0, 0, 0, 0x4000, 0x2000, 1, 0x1FFF, 0x8000, rng.below(65536)])
         hdr = bytes([(ver << 4) | ihl, rng.below(256)]) + be16(tl) + rng.bytes(2) + be16(flags_fo) + bytes([rng.below(256), proto]) + rng.bytes(10)
@@ -152,6 +155,11 @@ def gen_ip(rng, want=None):
         plen = vary(rng, len(chain), 0)
         if rng.chance(1, 8):
             plen = 0
+        xlen = len(chain) - len(tr)
+        if xlen > 0 and rng.chance(1, 6):
+            # the announced packet ends inside (or exactly behind) the extension headers
+            # while the buffer goes on
+            plen = rng.below(xlen + 3)
         ver = 6 if rng.chance(19, 20) else rng.below(16)
         hdr = bytes([(ver << 4) | rng.below(16)]) + rng.bytes(3) + be16(plen) + bytes([first, rng.below(256)]) + rng.bytes(32)
         et = ET_IPV6 if rng.chance(19, 20) else ET_IPV4
